@@ -31,7 +31,8 @@ import (
 
 // token universe of a case (index -> token)
 type tok10 struct {
-	symbol, minUnit string
+	symbol, minUnit string // symbol "" = no token record yet (traced denom)
+	defSym          string // traced denom: the symbol a deploy op without `sym` uses
 	scale           uint32
 	owner           int  // user index, -1 = token module (native, trace-only denoms)
 	registered      bool // has a token record
@@ -48,7 +49,7 @@ var c10Tokens = []tok10{
 	{symbol: "tka", minUnit: "utka", scale: 6, owner: 0, registered: true},
 	{symbol: "tkb", minUnit: "utkb", scale: 18, owner: 1, registered: true},
 	{symbol: "tkc", minUnit: "utkc", scale: 0, owner: 2, registered: true},
-	{symbol: "btcsym", minUnit: "btc", scale: 8, owner: -1, registered: false}, // bank denom without a token record ("ibc-like")
+	{defSym: "btcsym", minUnit: "btc", scale: 8, owner: -1, registered: false}, // bank denom without a token record ("ibc-like"): symbol chosen at deployment
 	{symbol: "stake", minUnit: "stake", scale: 0, owner: -1, registered: true}, // the native token
 	// Symbols and min units are separate namespaces: a token's SYMBOL may equal another token's MIN UNIT. Every lookup
 	// on a conversion path has to resolve a coin denom as a min unit (never symbol first), or value moves between the
@@ -57,15 +58,18 @@ var c10Tokens = []tok10{
 	{symbol: "gold", minUnit: "ugold", scale: 18, owner: 0, registered: true},
 	{symbol: "argent", minUnit: "silver", scale: 0, owner: 1, registered: true, noDeploy: true},
 	{symbol: "silver", minUnit: "usilver", scale: 6, owner: 2, registered: true},
-	{symbol: "atom", minUnit: c10IBCDenom, scale: 6, owner: -1, registered: false}, // IBC voucher: token record only once deployed
+	{defSym: "atom", minUnit: c10IBCDenom, scale: 6, owner: -1, registered: false},  // IBC voucher: token record (symbol, name, scale) only once deployed
+	{defSym: "osmo", minUnit: c10IBCDenom2, scale: 6, owner: -1, registered: false}, // a second voucher
 }
 
-const c10IBCTok = 9
+// indices of the traced denoms (no token record until MsgDeployERC20 creates a module-owned one)
+var c10Vouchers = []int{3, 9, 10}
 
 // c10IBCDenom is a bank denom as the IBC transfer module makes them (upper-case hash, slash): DeployERC20 accepts
 // such min units for denoms with a trace (MsgDeployERC20.ValidateBasic -> ValidateERC20), it is the case the
 // trace-only branch of buildERC20Token was written for.
 const c10IBCDenom = "ibc/27394FB092D2ECCD56123C74F36E4C1F926001CEADA9CA97EA622B25F41E5EB2"
+const c10IBCDenom2 = "ibc/0471F1C4E7AFD3F07702BEF6DC365268D64570F7C1FDC98EA6098DD6DE59817B"
 
 var (
 	c10EnvOnce sync.Once
@@ -74,7 +78,7 @@ var (
 
 // c10Env is the environment of the C10 machine: the default universe plus whale balances of the IBC denom.
 func c10Env() *chain.Env {
-	c10EnvOnce.Do(func() { c10EnvV = chain.NewEnv(chain.Options{ExtraDenoms: []string{c10IBCDenom}}) })
+	c10EnvOnce.Do(func() { c10EnvV = chain.NewEnv(chain.Options{ExtraDenoms: []string{c10IBCDenom, c10IBCDenom2}}) })
 	return c10EnvV
 }
 
@@ -100,7 +104,9 @@ type op10 struct {
 	Fault  string `json:"fault,omitempty"`  // "", error, revert, plus, minus, noop
 	NoKey  bool   `json:"no_key,omitempty"` // toerc20: the EVM does not support the receiver's key type
 	Enable bool   `json:"enable,omitempty"`
-	Parts  int    `json:"parts,omitempty"` // tonative: the EVM transaction calls swapToNative this many times (one log each)
+	Parts  int    `json:"parts,omitempty"`  // tonative: the EVM transaction calls swapToNative this many times (one log each)
+	Sym    string `json:"sym,omitempty"`    // deploy: symbol (and name) of the message; "" = the token's own / default symbol
+	DScale int    `json:"dscale,omitempty"` // deploy: scale of the message + 1; 0 = the token's own / default scale
 }
 
 type m10 struct {
@@ -163,15 +169,35 @@ func newC10() pbt.Machine[op10] {
 		t.twin, t.twinOf = -1, -1
 		m.toks = append(m.toks, &t)
 	}
-	for i, a := range m.toks {
+	for _, a := range m.toks {
 		a.sum = c.Supply(a.minUnit).BigInt() // after every issue: the issue fees burn stake
+	}
+	m.retwin()
+	return m
+}
+
+// retwin recomputes which token's SYMBOL equals which token's MIN UNIT (a voucher's symbol is chosen at deployment).
+func (m *m10) retwin() {
+	for _, a := range m.toks {
+		a.twin, a.twinOf = -1, -1
+	}
+	for i, a := range m.toks {
 		for j, b := range m.toks {
-			if i != j && a.minUnit == b.symbol {
+			if i != j && b.registered && b.symbol != "" && a.minUnit == b.symbol {
 				a.twin, b.twinOf = j, i
 			}
 		}
 	}
-	return m
+}
+
+// bySymbol returns the registered token that owns a symbol.
+func (m *m10) bySymbol(sym string) *tok10 {
+	for _, t := range m.toks {
+		if t.registered && t.symbol == sym {
+			return t
+		}
+	}
+	return nil
 }
 
 // ---------------------------------------------------------------------------------------------
@@ -234,7 +260,48 @@ func (m *m10) Next(t *rapid.T) op10 {
 			op.Tok = rapid.SampledFrom(c10PairToks).Draw(t, "pairTok")
 		}
 		if m.toks[op.Tok].noDeploy {
-			op.Tok = m.toks[op.Tok].twin // pair 2 keeps exactly one deployable side
+			op.Tok = 8 // pair 2 keeps exactly one deployable side
+		}
+		if rapid.IntRange(0, 9).Draw(t, "voucher?") < 4 {
+			op.Tok = rapid.SampledFrom(c10Vouchers).Draw(t, "voucher")
+		}
+		if tk := m.toks[op.Tok]; !tk.registered {
+			// a traced denom gets its token record here: the message chooses symbol, name and scale
+			var issued, minUnits, vouchers []string
+			for i, o := range m.toks {
+				if o == tk {
+					continue
+				}
+				if o.registered {
+					issued = append(issued, o.symbol)
+					minUnits = append(minUnits, o.minUnit)
+				}
+				if o.owner < 0 && i != 4 {
+					if o.registered {
+						vouchers = append(vouchers, o.symbol)
+					} else {
+						vouchers = append(vouchers, o.defSym)
+						minUnits = append(minUnits, o.minUnit) // a symbol that equals a not yet deployed voucher's denom
+					}
+				}
+			}
+			switch k := rapid.IntRange(0, 19).Draw(t, "symKind"); {
+			case k < 7:
+				op.Sym = tk.defSym
+			case k < 9:
+				op.Sym = tk.minUnit
+			case k < 14:
+				op.Sym = rapid.SampledFrom(issued).Draw(t, "symIssued")
+			case k < 17:
+				op.Sym = rapid.SampledFrom(minUnits).Draw(t, "symMinUnit")
+			default:
+				op.Sym = rapid.SampledFrom(vouchers).Draw(t, "symVoucher")
+			}
+			op.DScale = 1 + rapid.SampledFrom([]int{0, 6, 6, 8, 18}).Draw(t, "dscale")
+		} else if rapid.IntRange(0, 3).Draw(t, "otherSym") == 0 {
+			// existing record: the message's symbol/scale only name the ERC20, the record must not change
+			op.Sym = rapid.SampledFrom([]string{"tka", "gold", "zzz", "btc", "stake"}).Draw(t, "symAny")
+			op.DScale = 1 + rapid.IntRange(0, 18).Draw(t, "dscaleAny")
 		}
 		if rapid.IntRange(0, 9).Draw(t, "nonGov") == 0 {
 			op.Who = rapid.IntRange(0, 3).Draw(t, "who")
@@ -296,7 +363,7 @@ func (m *m10) Next(t *rapid.T) op10 {
 		m.feeSeen = append(m.feeSeen, op)
 		return op
 	case k >= 96: // restart of the token module from its exported genesis
-		if m.avoidIBC && m.toks[c10IBCTok].registered {
+		if m.avoidIBC && (m.toks[9].registered || m.toks[10].registered) {
 			m.cls["skipped:C10/reimport-import"] = true
 			return op10{Kind: "enable", Who: -1, Enable: m.enabled}
 		}
@@ -446,21 +513,72 @@ func (m *m10) Apply(op op10) error {
 		if op.Who >= 0 {
 			auth = e.Users[op.Who].Addr.String()
 		}
-		res = c.Deliver(&v1.MsgDeployERC20{Symbol: tk.symbol, Name: tk.symbol, Scale: tk.scale, MinUnit: tk.minUnit, Authority: auth})
+		sym, scale := tk.symbol, tk.scale
+		if sym == "" {
+			sym = tk.defSym
+		}
+		if op.Sym != "" {
+			sym = op.Sym
+		}
+		if op.DScale > 0 {
+			scale = uint32(op.DScale - 1)
+		}
+		name := sym
+		if len(name) > 32 {
+			name = name[:32]
+		}
+		res = c.Deliver(&v1.MsgDeployERC20{Symbol: sym, Name: name, Scale: scale, MinUnit: tk.minUnit, Authority: auth})
+		holder := m.bySymbol(sym)
 		switch {
 		case op.Who >= 0:
 			reject = "deployment by a non-authority"
 		case tk.contract != nil:
 			reject = "token already has a contract"
+			if !tk.registered || tk.owner < 0 && tk != m.toks[4] {
+				m.cls["deploy-voucher-second-contract-refused"] = true
+			}
+		case !tk.registered && holder != nil:
+			reject = "the symbol already identifies token " + holder.symbol + "/" + holder.minUnit
+			m.cls["deploy-voucher-symbol-taken"] = true
+			switch {
+			case holder.owner < 0 && holder != m.toks[4]:
+				m.cls["deploy-voucher-symbol-taken-by-voucher"] = true
+			case holder.contract != nil:
+				m.cls["deploy-voucher-symbol-taken-by-token-with-contract"] = true
+			default:
+				m.cls["deploy-voucher-symbol-taken-by-token-without-contract"] = true
+			}
 		case !m.enabled:
 			reject = "ERC20 disabled"
 		case op.Fault != "":
 			reject = "EVM failure injected"
 		}
 		commit = func() {
+			if !tk.registered { // the module-owned token record of a traced denom is created with the message's symbol and scale
+				tk.symbol, tk.scale = sym, scale
+				switch {
+				case sym == tk.minUnit:
+					m.cls["deploy-voucher-symbol-is-denom"] = true
+				case sym == tk.defSym:
+					m.cls["deploy-voucher-fresh-symbol"] = true
+				default:
+					m.cls["deploy-voucher-symbol-is-other-min-unit-or-free-name"] = true
+				}
+				n := 0
+				for _, i := range c10Vouchers {
+					if m.toks[i].registered || m.toks[i] == tk {
+						n++
+					}
+				}
+				if n >= 2 {
+					m.cls["several-vouchers-deployed"] = true
+				}
+			} else if sym != tk.symbol || scale != tk.scale {
+				m.cls["deploy-existing-token-under-other-erc20-name"] = true
+			}
 			got, err := e.K.Token.GetToken(c.Ctx, tk.symbol) // by symbol: the lookup is symbol-first and symbols are unique
 			if err != nil || got.GetContract() == "" || got.GetMinUnit() != tk.minUnit {
-				panic(fmt.Sprintf("deployed token has no contract: %v", err))
+				return // the per-step token-record clause reports it
 			}
 			a := common.HexToAddress(got.GetContract())
 			for _, o := range m.toks {
@@ -469,6 +587,7 @@ func (m *m10) Apply(op op10) error {
 				}
 			}
 			tk.contract, tk.registered = &a, true
+			m.retwin()
 			m.cls["deployed"] = true
 			if m.nReimp > 0 {
 				m.cls["deploy-after-reimport"] = true
@@ -640,7 +759,7 @@ func (m *m10) Apply(op op10) error {
 		nContracts := len(m.deployed())
 		if _, stage, err := c.Reimport(tokentypes.ModuleName); err != nil {
 			return pbt.Failf("C10/reimport-"+stage, "token genesis round trip with %d bound contracts (IBC voucher registered: %v): %v",
-				nContracts, m.toks[c10IBCTok].registered, err)
+				nContracts, m.toks[9].registered || m.toks[10].registered, err)
 		}
 		if got := chain.Diff(before, c.Snapshot()); !got.Empty() {
 			return pbt.Failf("C10/reimport-moved-coins", "genesis round trip changed balances: %s", got)
@@ -869,18 +988,33 @@ func (m *m10) feeSwap(op op10, tk *tok10, before chain.Sheet, evmBefore string) 
 
 func (m *m10) invariants() error {
 	c := m.c
+	nRegistered := 0
 	for _, tk := range m.toks {
 		// the token record names exactly the contract the model bound to it (also after a restart)
-		rec, err := c.E.K.Token.GetToken(c.Ctx, tk.symbol) // by symbol: unambiguous
-		switch {
-		case !tk.registered:
-			if err == nil {
-				return pbt.Failf("C10/token-record", "token %s has a record although it was never deployed or issued", tk.symbol)
+		if !tk.registered {
+			if c.E.K.Token.HasMinUint(c.Ctx, tk.minUnit) {
+				return pbt.Failf("C10/token-record", "denom %s has a token record although it was never deployed or issued", tk.minUnit)
 			}
+			continue
+		}
+		nRegistered++
+		rec, err := c.E.K.Token.GetToken(c.Ctx, tk.symbol) // by symbol: unambiguous
+		// by min unit where that is unambiguous too (the lookup is symbol-first)
+		if err == nil && m.bySymbol(tk.minUnit) == nil {
+			if r2, err2 := c.E.K.Token.GetToken(c.Ctx, tk.minUnit); err2 != nil || r2.GetSymbol() != tk.symbol {
+				return pbt.Failf("C10/token-record", "min unit %s no longer leads to token %s (%v)", tk.minUnit, tk.symbol, err2)
+			}
+		}
+		wantOwner := c09Module.String()
+		if tk.owner >= 0 {
+			wantOwner = c.E.Users[tk.owner].Addr.String()
+		}
+		switch {
 		case err != nil:
 			return pbt.Failf("C10/token-record", "token %s lost its record: %v", tk.symbol, err)
-		case rec.GetMinUnit() != tk.minUnit || rec.GetScale() != tk.scale:
-			return pbt.Failf("C10/token-record", "token %s reads min unit %s scale %d", tk.symbol, rec.GetMinUnit(), rec.GetScale())
+		case rec.GetSymbol() != tk.symbol || rec.GetMinUnit() != tk.minUnit || rec.GetScale() != tk.scale || rec.GetOwner().String() != wantOwner:
+			return pbt.Failf("C10/token-record", "token %s/%s (scale %d, owner %s) reads symbol %s min unit %s scale %d owner %s", tk.symbol, tk.minUnit, tk.scale, wantOwner,
+				rec.GetSymbol(), rec.GetMinUnit(), rec.GetScale(), rec.GetOwner())
 		case tk.contract == nil && rec.GetContract() != "":
 			return pbt.Failf("C10/token-record", "token %s is bound to %s, model: no contract", tk.symbol, rec.GetContract())
 		case tk.contract != nil && common.HexToAddress(rec.GetContract()) != *tk.contract:
@@ -906,6 +1040,9 @@ func (m *m10) invariants() error {
 			return pbt.Failf("C10/sum-changed", "%s: native supply %s + ERC20 supply %s = %s, model %s", tk.symbol, sup, total, s, tk.sum)
 		}
 	}
+	if n := len(c.E.K.Token.GetTokens(c.Ctx, nil)); n != nRegistered {
+		return pbt.Failf("C10/token-record", "the store holds %d token records, the model %d", n, nRegistered)
+	}
 	if bal := c.E.App.BankKeeper.GetAllBalances(c.Ctx, c09Module); !bal.IsZero() {
 		return pbt.Failf("C10/module-account-nonzero", "token module account holds %s", bal)
 	}
@@ -924,7 +1061,7 @@ func (m *m10) Classify() (bool, []string) {
 }
 
 const c10Rule = "rapid state machine on the K-driver with the transactional harness EVM: deployERC20 / swapToERC20 / swapFromERC20 / contract swapToNative + " +
-	"PostTxProcessing hook / swapFeeToken (keeper copy WithSwapRegistry, any positive ratio, 10 tokens of scales 0..18 incl. a trace-only bank denom, an IBC voucher denom (ibc/HASH), the native token and two pairs whose one symbol equals the other's min unit - one pair with both sides deployable, one with a single deployable side; 40 % of the conversions pick a pair token) / " +
+	"PostTxProcessing hook / swapFeeToken (keeper copy WithSwapRegistry, any positive ratio, 11 tokens of scales 0..18 incl. three traced denoms (a plain bank denom and two IBC vouchers ibc/HASH) whose token record is created by MsgDeployERC20 under a symbol/scale drawn from: a fresh name, the denom itself, a taken symbol (token with/without contract, another voucher), another token's min unit; the native token and two pairs whose one symbol equals the other's min unit - one pair with both sides deployable, one with a single deployable side; 40 % of the conversions pick a pair token) / " +
 	"owner mint+burn / enable-disable / restart of the token module from its exported genesis (the history continues on the restored state); receivers incl. blocked, new and malformed addresses; injected EVM error, revert, +-1 mis-credit and silent no-op; amounts relative to live " +
 	"balances and by shape up to 2^128; non-trivial = history with a failed conversion after at least one successful conversion; distinct by SHA-256 of the op list"
 
